@@ -239,10 +239,10 @@ func (r *Rand) Intn(n int) int {
 }
 
 func (r *Rand) Range(lo, hi int) int { return lo + r.Intn(hi-lo+1) }
-func (r *Rand) Bool() bool         { return r.Intn(2) == 1 }
-func (r *Rand) Pct(p int) bool     { return r.Intn(100) < p }
-func (r *Rand) Pick(xs ...int) int { return xs[r.Intn(len(xs))] }
-func (r *Rand) U64() uint64        { return r.next() }
+func (r *Rand) Bool() bool           { return r.Intn(2) == 1 }
+func (r *Rand) Pct(p int) bool       { return r.Intn(100) < p }
+func (r *Rand) Pick(xs ...int) int   { return xs[r.Intn(len(xs))] }
+func (r *Rand) U64() uint64          { return r.next() }
 
 func splitmix(x uint64) uint64 {
 	x += 0x9E3779B97F4A7C15
